@@ -11,6 +11,13 @@ SoxrModel/Properties/C01|C02|C12.lean take as premises.  It is never counted as 
   fits        sampled sine-fit exploration for what the row method cannot reach (irrational ratios, engines' rounding
               noise under a full-scale tone, integer formats, channels): 4-parameter least squares with a first-order
               frequency term, window after the start-up horizon
+  cover       WHICH configurations are measured: a seeded pool (ratio x recipe x engine x knob of the quality spec) is
+              planned by the real library, each candidate is labelled with its plan class (stage_tag / plan_class on the
+              exported plan) and one member of every (plan class, knob) pair is drawn; REQUIRED_CLASSES / _ORDERS /
+              _ENGINES name the planner paths every run has to hit
+  findings    known findings of the pinned tree (known_findings.d/signal.json): configuration / plan signature
+              (finding_flags, f1_exact, sg4_signature) AND symptom bound (FINDING_SYMPTOM, sg4_cap); only entries listed
+              as `known` for the running property (set_active) can explain an excess
 """
 import math, os, subprocess, sys
 from fractions import Fraction
@@ -657,6 +664,12 @@ def f1_exact(info):
     return any(s["kind"] == "dft" and s["L"] > 1 and _p2(s["L"]) and s["blockLen"] % s["L"] != 0 for s in info["stages"])
 
 
+def f1_known(info):
+    """F1 is only produced for phase_response != 50; the same plan signature with LINEAR phase is not the known finding and is
+    measured like any other plan (a crash of the child process is then reported as such)."""
+    return f1_exact(info) and info["q"]["phase"] != 50
+
+
 def fph1_signature(info):
     """Known finding F-PH1 (known_findings.d/phase.json): precision >= 28, 0 < min(phase, 100-phase) <= 25, a dft stage
     with fewer than 256 taps."""
@@ -970,7 +983,7 @@ def job_rows(args):
     max_cost = args[2] if len(args) > 2 else 8e6
     try:
         info0, _ = run(c)
-        if "error" not in info0 and info0.get("engine", "").startswith("cr") and f1_exact(info0):
+        if "error" not in info0 and info0.get("engine", "").startswith("cr") and f1_known(info0):
             # F1 also over-delivers and can crash at flush (DESIGN section 6): no signal is sent through such a plan here
             return {"cfg": c, "label": cfg_label(c), "skipped": "known finding F1 signature (dft stage with power-of-two L not dividing block_len)",
                     "plan": plan_signature(info0), "f1": True, "f1_linear": info0["q"]["phase"] == 50}
@@ -1001,7 +1014,7 @@ def job_tone(args):
             return {"cfg": c, "label": cfg_label(c), "skipped": "create failed: " + info["error"]}
         if not info.get("engine", "").startswith("cr") or bits_of(info) < 15:
             return {"cfg": c, "label": cfg_label(c), "skipped": "property does not speak (precision < 15 bits)"}
-        if f1_exact(info):
+        if f1_known(info):
             return {"cfg": c, "label": cfg_label(c), "skipped": "known finding F1 signature", "f1": True, "f1_linear": info["q"]["phase"] == 50}
         d = tone_job(c, **kw)
         d.update(cfg=c, label=cfg_label(c), kw=kw, class_db=gain_class_db(info), pb=info["q"]["pb"], sb=info["q"]["sb"],
